@@ -113,7 +113,14 @@ func (r *Run) Note(format string, args ...any) { r.Notes = append(r.Notes, fmt.S
 
 // Expect declares the minimal number of obligations a rule must produce
 // (the instance count confirmed by hand); fewer is a failure (vacuity guard).
-func (r *Run) Expect(rule string, min int) {
+func (r *Run) Expect(rule string, confirmed int) {
+	// Vacuity guard, not a change detector: the floor is two thirds of the count confirmed on the pinned
+	// tree. Sites legitimately merge (three identical statements become one helper) or disappear with
+	// the code they guarded; every construct that matters on its own has its own obligation or anchor.
+	min := (confirmed*2 + 2) / 3
+	if min < 1 {
+		min = 1
+	}
 	r.expects = append(r.expects, expectation{r.rule(rule), min})
 }
 
@@ -141,7 +148,7 @@ func (r *Run) finish() {
 	for _, e := range r.expects {
 		if counts[e.rule] < e.min {
 			r.add(e.rule, "instance-count", token.NoPos, StViolation,
-				fmt.Sprintf("rule matched %d instances, at least %d were confirmed by hand on the pinned tree (a rule that matches nothing passes vacuously)", counts[e.rule], e.min))
+				fmt.Sprintf("rule matched only %d instances; the floor is %d (two thirds of what was confirmed by hand on the pinned tree): the rule has lost its subjects and would pass vacuously", counts[e.rule], e.min))
 		}
 	}
 }
